@@ -1,6 +1,7 @@
 (* C16 — packed length encoding and fixed-width integers are exact for every value.
    Statements only; proofs in SevenBit.v, BaseFacts.v, PrimFacts.v, ObjFacts.v. *)
-From Sbdf Require Import Prim BaseFacts PrimFacts SevenBit Obj ObjFacts.
+From Sbdf Require Import Prim BaseFacts PrimFacts SevenBit Obj ObjFacts LeafTie.
+From Sbdf.Gen Require Import Leaf.
 
 (* every length 0 <= n < 2^31 is read back as n whatever follows it, and every strict prefix of
    its encoding is refused with a hard error *)
@@ -13,6 +14,12 @@ Print Assumptions C16_read_write_7bit.
 Theorem C16_length_accounting : forall n, len_range n -> zlen (enc7 n) = len7 n /\ 1 <= len7 n <= 5.
 Proof. intros n H. split; [exact (zlen_enc7 n H)|exact (len7_bounds n)]. Qed.
 Print Assumptions C16_length_accounting.
+
+(* ... and that accounting function is the one in the source: sbdf_get_7bitpacked_len as translated
+   from /repo/src/internals.c on this run equals len7 for every integer *)
+Theorem C16_length_function_is_the_source : forall v, gen_sbdf_get_7bitpacked_len v = len7 v.
+Proof. exact tie_len7. Qed.
+Print Assumptions C16_length_function_is_the_source.
 
 (* least-significant group first, continuation bit on all but the last byte *)
 Theorem C16_shape : forall n, len_range n -> shape7 (enc7 n).
